@@ -9,6 +9,14 @@ func VerifCompile() {
 	jp, err := Compile(src)
 	verifNote("err", err != nil)
 	verifAssert((jp != nil) == (err == nil), "C17:exactly-one-of-result-and-error")
+	if verifHasParam("grammar") {
+		// byte-level language check: reference lexer + grammar circuit
+		types, lexOK, unspec := verifRefLex(src)
+		if !unspec {
+			want := lexOK && verifGrammarAccepts(types)
+			verifAssert(want == (err == nil), "C04:compile-accepts-iff-grammatical")
+		}
+	}
 	if err == nil && jp != nil {
 		verifAssert(verifASTWellFormed(jp.ast, false), "C04,C17:compiled-expression-not-usable")
 		verifAssert(jp.intr != nil, "C17:compiled-expression-not-usable")
